@@ -110,7 +110,7 @@ var locksetOpNames = []string{
 	"SetReadBuffer", "SetWriteBuffer", "SetRateLimit", "SetLogger", "Control", "GetConv", "GetRTO", "GetSRTT",
 	"GetSRTTVar", "SetOOBHandler", "GetOOBMaxSize", "SendOOB",
 	"L.Accept", "L.AcceptKCP", "L.SetDeadline", "L.SetReadDeadline", "L.SetWriteDeadline", "L.Addr", "L.Control",
-	"L.SetReadBuffer", "L.SetWriteBuffer", "L.SetDSCP", "L.Close", "Snmp.Copy", "bytes.delivered", "oob.delivered",
+	"L.SetReadBuffer", "L.SetWriteBuffer", "L.SetDSCP", "L.Close", "Snmp.Copy", "Crypt.Encrypt", "Crypt.Decrypt", "bytes.delivered", "oob.delivered",
 }
 
 type locksetCounters struct{ c []atomic.Int64 }
@@ -158,6 +158,12 @@ func locksetBlock(t testing.TB, kind string) BlockCrypt {
 		b, err = NewBlowfishBlockCrypt(key)
 	case "sm4":
 		b, err = NewSM4BlockCrypt(key[:16])
+	case "twofish":
+		b, err = NewTwofishBlockCrypt(key)
+	case "cast5":
+		b, err = NewCast5BlockCrypt(key[:16])
+	case "xtea":
+		b, err = NewXTEABlockCrypt(key[:16])
 	default:
 		t.Fatalf("unknown cipher class %s", kind)
 	}
@@ -515,6 +521,48 @@ func locksetScenarioF7(t testing.TB, k *locksetCounters, iters int) {
 	p.lconn.Close()
 }
 
+// scenario "cipher objects": one BlockCrypt is shared by a session's post-processing goroutine
+// (Encrypt) and its receive goroutine (Decrypt), and by all sessions of a listener; here the two
+// directions are driven directly and concurrently on one object of EVERY cipher kind, in place and
+// out of place, over packet lengths around the unrolled-loop boundaries.
+func locksetScenarioCiphers(t testing.TB, k *locksetCounters, iters int) {
+	for _, kind := range []string{"aes", "tea", "xtea", "salsa20", "xor", "none", "3des", "blowfish", "cast5", "twofish", "sm4"} {
+		b := locksetBlock(t, kind)
+		var wg sync.WaitGroup
+		for g := 0; g < 4; g++ {
+			wg.Add(1)
+			go func(g int) {
+				defer wg.Done()
+				src := make([]byte, 1500)
+				dst := make([]byte, 1500)
+				for i := range src {
+					src[i] = byte(i*7 + g)
+				}
+				for i := 0; i < iters; i++ {
+					n := []int{16, 24, 100, 128, 136, 375, 1400, 1500}[(i+g)%8]
+					switch g % 2 {
+					case 0:
+						if i%2 == 0 {
+							b.Encrypt(dst[:n], src[:n])
+						} else {
+							b.Encrypt(src[:n], src[:n])
+						}
+						k.add("Crypt.Encrypt", 1)
+					default:
+						if i%2 == 0 {
+							b.Decrypt(dst[:n], src[:n])
+						} else {
+							b.Decrypt(src[:n], src[:n])
+						}
+						k.add("Crypt.Decrypt", 1)
+					}
+				}
+			}(g)
+		}
+		wg.Wait()
+	}
+}
+
 // scenario "listener read error": the listener's socket starts failing while handler goroutines,
 // woken by the propagated error, Close their accepted sessions.  The monitor goroutine walks the
 // session table (notifyReadError, once per listener) while Close removes entries from it; many
@@ -624,6 +672,13 @@ func TestVerifC14(t *testing.T) {
 	}
 	if only == "" || only == "F7" {
 		account("F7:SetLogger-vs-SetLogger", func() { locksetScenarioF7(t, k, iters) })
+	}
+	if only == "" || only == "ciphers" {
+		n := 300
+		if vThorough() {
+			n = 3000
+		}
+		account("ciphers:Encrypt-vs-Decrypt-on-one-BlockCrypt", func() { locksetScenarioCiphers(t, k, n) })
 	}
 	if only == "" || only == "readerr" {
 		rounds, nsess := 8, 60
